@@ -108,6 +108,36 @@ func runC19(p *core.Prog, r *core.Report) {
 	c19R3(p, r)
 	c19R4(p, r)
 	c19R5(p, r)
+	c19R6(p, r)
+}
+
+// c19R6: a script that fails stops by itself. RunScript turns panics inside the script into an error;
+// the code of the runner that looks at that error afterwards runs outside that protection, so it must
+// not panic on the shape of what the script raised (an error object need not be a string).
+func c19R6(p *core.Prog, r *core.Report) {
+	const rule = "C19.R6"
+	r.Rule(rule, "the runner cannot be crashed by a script's error value: outside the sandbox package (whose bindings run under the interpreter's protected call) no function of cmd/regbot makes an unchecked type assertion on a Lua value", 1)
+	n := 0
+	for _, fn := range pkgFuncs(p, "cmd/regbot") {
+		lab := labeler{}
+		for _, b := range fn.Blocks {
+			for _, in := range b.Instrs {
+				ta, ok := in.(*ssa.TypeAssert)
+				if !ok || ta.CommaOk {
+					continue
+				}
+				nt := core.NamedOf(ta.X.Type())
+				if nt == nil || nt.Obj().Pkg() == nil || nt.Obj().Pkg().Path() != "github.com/yuin/gopher-lua" {
+					continue
+				}
+				n++
+				r.Violated(rule, p.FuncName(fn), lab.next("unchecked assertion on a Lua value"), p.Pos(ta.Pos()), "a Lua value that a script controls (the object it raised as error) is asserted to be a "+ta.AssertedType.String()+" without the comma-ok form: a script that raises a table, a number or nil crashes regbot, and the scripts after it never run")
+			}
+		}
+	}
+	if n == 0 {
+		r.Held(rule, "cmd/regbot", "no unchecked assertion on Lua values", "-", "the runner does not depend on the shape of what a script raises")
+	}
 }
 
 func c19R1(p *core.Prog, r *core.Report) {
